@@ -19,34 +19,34 @@ import (
 func init() { register("C15", "exploration", checkC15) }
 
 type cliMember struct {
-	Name    string
-	Kind    string // plain, xz, lzma, missing, dir, corrupt-xz, corrupt-lzma
-	Bytes   []byte // file content (compressed for xz/lzma kinds)
-	Plain   []byte
-	Mode    os.FileMode
-	Foreign bool // compressed member written by xz-utils
+	Name         string
+	Kind         string // plain, xz, lzma, missing, dir, corrupt-xz, corrupt-lzma
+	Bytes        []byte // file content (compressed for xz/lzma kinds)
+	Plain        []byte
+	Mode         os.FileMode
+	Foreign      bool // compressed member written by xz-utils
 	TargetExists bool
 }
 
 type cliInv struct {
-	ID       string
+	ID                          string
 	Decomp, Keep, Stdout, Force bool
-	Format   string // "", xz, lzma, alone, auto
-	Preset   int    // -1 none
-	Quiet, Verbose int
-	UseZ     bool
-	Members  []cliMember
-	Argv     []string
-	Stdin    []byte // non-nil: no file arguments
+	Format                      string // "", xz, lzma, alone, auto
+	Preset                      int    // -1 none
+	Quiet, Verbose              int
+	UseZ                        bool
+	Members                     []cliMember
+	Argv                        []string
+	Stdin                       []byte // non-nil: no file arguments
 }
 
 // fileExpect describes the expected state of one path after the run.
 type fileExpect struct {
-	Kind  string // "absent", "bytes", "decodes"
-	Bytes []byte
-	Fmt   string
-	Plain []byte
-	MaxMode os.FileMode
+	Kind      string // "absent", "bytes", "decodes"
+	Bytes     []byte
+	Fmt       string
+	Plain     []byte
+	MaxMode   os.FileMode
 	CheckMode bool
 }
 
